@@ -92,6 +92,7 @@ THEOREMS = [
     "Typedpy.C18.fixed_nested_structure_examples",
     "Typedpy.C18.p1SitesD_tops",
     "Typedpy.C18.wrapper_path_examples",
+    "Typedpy.C18.nested_expansion_depends_on_inner_shape",
 ]
 RULE = ("flat classes (1..5 fields: Integer/Number/Float incl. sign variants, String, Boolean, Enum, and Array/Deque/"
         "Set/Tuple/Map over them) from the type-directed declaration generator; per class a valid argument set, then "
@@ -120,9 +121,8 @@ RULE = ("flat classes (1..5 fields: Integer/Number/Float incl. sign variants, St
         "model exception class / class prefix / path / shape vs str(exception); model parse vs the real ErrorInfo(s). "
         "Oracle: the property statement on the real results with the invalid set computed by Lean `validate`. "
         "Plus a DEEP stream: classes whose fields are collections nested 2..3 levels (every combination of Array/Deque/Tuple/Set/Map, homogeneous "
-        "and positional) over scalars and nested structures (class references anywhere; inline StructureReference as direct fields only - inside "
-        "collections an inline structure is deserialized without the aggregated mapper and a null field becomes a value: a region of the `deser` "
-        "model kept out), collections of class references, top-level nested-structure fields, and AnyOf / OneOf / AllOf / NotField over "
+        "and positional) over scalars and nested structures (class references and inline StructureReference, anywhere - since /repo 2133150 a null field of "
+        "an inline structure is absent wherever it is nested, as the `deser` model says), collections of nested structures, top-level nested-structure fields, and AnyOf / OneOf / AllOf / NotField over "
         "scalars and collections (as a field or as the item of a collection); ONE position at a random depth of one or two "
         "fields made invalid (boundary neighbour of the declaration AT that position, payload text, other type); constructor and both "
         "deserialization entry points, fail-fast on/off; compared: the full suffix chain (Lean `locate`), deser accept/reject + exception class "
